@@ -48,7 +48,7 @@ class Bench:
             for (c, ca, sc, o), r in zip(self.records, replies):
                 ok, why = vmrun.compare_auth(r, o)
                 if not ok and len(res.disagreements) < 20:
-                    res.disagreements.append({'scripts': [s.hex()[:160] for s in sc], 'why': why, 'model': r[:160], 'impl': o[:160]})
+                    res.disagreements.append({'cfg': c.line(), 'cache': vmrun.cache_str(ca, False)[:2000], 'scripts': [s.hex()[:6000] for s in sc], 'why': why, 'model': r[:1500], 'impl': o[:1500]})
             for (line, got), r in zip(self.builds, replies[len(lines):]):
                 if r != got and not (r.startswith('ERR') and got.startswith('ERR')) and len(res.disagreements) < 20:
                     res.disagreements.append({'builder': line[:200], 'model': r[:300], 'impl': got[:300]})
